@@ -1,11 +1,16 @@
 #!/bin/bash
-# usage: tools/seedsweep.sh : every stored seeded change against the check of the property it breaks (and related ones);
+# usage: tools/seedsweep.sh [suffix] : every stored seeded change (or only seeded/*-<suffix>, appended to RESULTS.md) against the check of the property it breaks (and related ones);
 # writes seeded/RESULTS.md.  /repo must be clean; it is restored after every seed.
 cd /verif
 out=seeded/RESULTS.md
-echo "| seeded change | breaks | check | outcome |" > $out
-echo "|---|---|---|---|" >> $out
-for d in seeded/C*; do
+if [ -z "$1" ]; then
+  echo "| seeded change | breaks | check | outcome |" > $out
+  echo "|---|---|---|---|" >> $out
+  sel="seeded/C*"
+else
+  sel="seeded/C*-$1"
+fi
+for d in $sel; do
   [ -f $d/patch.diff ] || continue
   p=$(python3 -c "import json;print(json.load(open('$d/meta.json'))['breaks_property'])")
   extra=$(python3 -c "import json;print(' '.join(json.load(open('$d/meta.json')).get('also_run',[])))")
